@@ -40,13 +40,13 @@ var commonAssumptions = []string{
 
 var properties = []Property{
 	{ID: "C01", Title: "expressions evaluate to the defined value", Level: "other",
-		Rules:       []string{"R-OPMAP", "R-OPTABLE", "R-DIVGUARD", "R-UNARY", "R-MATCHCELLS", "R-MEMBERSHIP", "R-LOGICCELLS", "R-CONSTDEDUP", "R-SCRIPTINDEX", "R-FOLDRESET", "R-MATCHONCE", "R-FOLDARITY", "R-DIVCONTEXT", "R-RANGE"},
-		Explanation: "Static table extraction over the type-checked AST: the compiler's operator→opcode map and every cell of the VM's five operator tables (Go operator, operand order, result type, sibling coverage, singleton pushes, division guard) are compared with the tables the language definition gives. Cell-level rules add the unary operators, the regexp-match cells, membership (`in` visits every element and compares type and printed form), the && / || cells, the constant pool's merge condition and the optimizer's window reset. The regexp matcher tries its pattern at least once for every subject, and the folder only rewrites when as many constants are pending as the operator has operands. A `/` after an operand is the division operator (and is only that after a look at the previous token), and the range operator builds the inclusive range.",
+		Rules:       []string{"R-OPMAP", "R-OPTABLE", "R-DIVGUARD", "R-UNARY", "R-MATCHCELLS", "R-MEMBERSHIP", "R-LOGICCELLS", "R-CONSTDEDUP", "R-SCRIPTINDEX", "R-FOLDRESET", "R-MATCHONCE", "R-FOLDARITY", "R-DIVCONTEXT", "R-RANGE", "R-HASHKEY"},
+		Explanation: "Static table extraction over the type-checked AST: the compiler's operator→opcode map and every cell of the VM's five operator tables (Go operator, operand order, result type, sibling coverage, singleton pushes, division guard) are compared with the tables the language definition gives. Cell-level rules add the unary operators, the regexp-match cells, membership (`in` visits every element and compares type and printed form), the && / || cells, the constant pool's merge condition and the optimizer's window reset. The regexp matcher tries its pattern at least once for every subject, and the folder only rewrites when as many constants are pending as the operator has operands. A `/` after an operand is the division operator (and is only that after a look at the previous token), and the range operator builds the inclusive range. The hash key of a value is computed from the whole value, so an index expression finds the entry of its own key only.",
 		NotDecided:  "values Go arithmetic produces; cells computed by calls other than power/substring (regexp match); dispatch on operand types beyond C05's clause; nesting; integer % by zero (a recovered panic, which the property allows as an error).",
 		Assumptions: commonAssumptions},
 	{ID: "C02", Title: "control flow", Level: "other",
-		Rules:       []string{"R-PATCHALL", "R-JUMPSET", "R-HANDLERS", "R-LOOPHEAD", "R-ITERNEXT", "R-MEMBERSHIP", "R-SWITCHDEFAULT", "R-NOMUT", "R-JOINPH", "R-EMITSET", "R-LOOPSTACK", "R-SWITCHONCE", "R-SCOPEFRESH", "R-SCOPERESTORE", "R-CONSTJUMP", "R-CHILDCOMPILED", "R-RANGE"},
-		Explanation: "SSA path analysis of the compiler: every placeholder jump is back-patched on every successful path, loops jump back to a head recorded before the re-executed code, the jump opcode set is the same in VM/optimizer/compiler, every opcode has a handler and the return opcode leaves the interpreter. The foreach handler advances its cursor once per cycle, membership loops have no early exit on a non-match, and a switch's default arm is compiled after every case. Each construct is translated with the opcodes of its scheme only (closed table), forward labels are outside every folding window. Known findings: a foreach body can bury the iterator it keeps on the stack; the switch subject is translated once per arm. A run ends with no loop scope left open (the variables it leaves are the globals), and the optimizer takes a conditional jump away only together with the constant that decides it.",
+		Rules:       []string{"R-PATCHALL", "R-JUMPSET", "R-HANDLERS", "R-LOOPHEAD", "R-ITERNEXT", "R-MEMBERSHIP", "R-SWITCHDEFAULT", "R-NOMUT", "R-JOINPH", "R-EMITSET", "R-LOOPSTACK", "R-SWITCHONCE", "R-SCOPEFRESH", "R-SCOPERESTORE", "R-CONSTJUMP", "R-CHILDCOMPILED", "R-RANGE", "R-NORELOCATE", "R-TREEKEEP"},
+		Explanation: "SSA path analysis of the compiler: every placeholder jump is back-patched on every successful path, loops jump back to a head recorded before the re-executed code, the jump opcode set is the same in VM/optimizer/compiler, every opcode has a handler and the return opcode leaves the interpreter. The foreach handler advances its cursor once per cycle, membership loops have no early exit on a non-match, and a switch's default arm is compiled after every case. Each construct is translated with the opcodes of its scheme only (closed table), forward labels are outside every folding window. Known findings: a foreach body can bury the iterator it keeps on the stack; the switch subject is translated once per arm. A run ends with no loop scope left open (the variables it leaves are the globals), and the optimizer takes a conditional jump away only together with the constant that decides it. No loop of the parser overwrites the sub-tree an earlier turn put into the tree (every else-if arm stays), and translated instructions stay at the offset they were emitted at.",
 		NotDecided:  "that patched offsets are the right ones (values computed while Prepare runs), order of arms, element order of foreach.",
 		Assumptions: commonAssumptions},
 	{ID: "C03", Title: "optimizer transparency", Level: "other",
@@ -60,23 +60,23 @@ var properties = []Property{
 		NotDecided:  "that each individual syntax check is the right check (needs a grammar as oracle).",
 		Assumptions: commonAssumptions},
 	{ID: "C04", Title: "host object fields", Level: "other",
-		Rules:       []string{"R-NONNIL", "R-RUNRESET", "R-LOOKUPORDER", "R-KINDTABLE", "R-COMMAOK", "R-PUREARGS", "R-REFLECTKIND", "R-ONPATHONLY", "R-STATECENSUS"},
-		Explanation: "Conversion of host fields is total and never yields a nil object (SSA nil-source analysis with function summaries over every Object-returning function and every push/store sink), every run and nested call starts from an empty field cache, and names resolve as variable, then field, then null (dominance in the resolver). The reflect.Kind → object table is the documented one, comma-ok results are used only where ok was tested, and no built-in reorders or writes an array it was given (a field's array is shared with the field cache). Members of host containers are taken out of their interface before the kind switch sees them, and the set that cuts off self-containing containers holds the current path only (a sibling met twice is not a cycle). No state of the machine outlives a run unclassified, so a run sees the object it was given.",
+		Rules:       []string{"R-NONNIL", "R-RUNRESET", "R-LOOKUPORDER", "R-KINDTABLE", "R-COMMAOK", "R-PUREARGS", "R-REFLECTKIND", "R-ONPATHONLY", "R-STATECENSUS", "R-ALLMEMBERS"},
+		Explanation: "Conversion of host fields is total and never yields a nil object (SSA nil-source analysis with function summaries over every Object-returning function and every push/store sink), every run and nested call starts from an empty field cache, and names resolve as variable, then field, then null (dominance in the resolver). The reflect.Kind → object table is the documented one, comma-ok results are used only where ok was tested, and no built-in reorders or writes an array it was given (a field's array is shared with the field cache). Members of host containers are taken out of their interface before the kind switch sees them, and the set that cuts off self-containing containers holds the current path only (a sibling met twice is not a cycle). No state of the machine outlives a run unclassified, so a run sees the object it was given. Every loop over the members of a reflected value stores each member: it is counted from the first to the last and skips only on the member's own account, never on the machine's state.",
 		NotDecided:  "lossless conversion per kind, order and length of arrays, nested maps: values produced by reflection at run time.",
 		Assumptions: commonAssumptions},
 	{ID: "C05", Title: "one notion of truth", Level: "other",
-		Rules:       []string{"R-IDENTITY", "R-LOGICDISPATCH", "R-TRUTHDEF", "R-TRUTHSITES", "R-RUNEXEC", "R-LOGICCELLS", "R-UNARY", "R-OPTCLOSED", "R-CONDDIRECT", "R-EMITSET", "R-CHILDCOMPILED"},
-		Explanation: "No identity comparison of objects anywhere in the library (SSA; matcher self-tested on a built-in example), && and || are reachable for every operand type pair (clause order of the dispatcher against the extracted tables), every True() body is the language's definition, consumers of truth call True(), and Run is True() of Execute's object with Execute's error. The compiler translates conditions and arms of if / while / ternary / switch exactly as the node's own fields and never writes into the tree; `!` is decided by the operand's type; the optimizer's rewrites are the enumerated ones. Both arms of a ternary are translated on every path.",
+		Rules:       []string{"R-IDENTITY", "R-LOGICDISPATCH", "R-TRUTHDEF", "R-TRUTHSITES", "R-RUNEXEC", "R-LOGICCELLS", "R-UNARY", "R-OPTCLOSED", "R-CONDDIRECT", "R-EMITSET", "R-CHILDCOMPILED", "R-CONSTJUMP"},
+		Explanation: "No identity comparison of objects anywhere in the library (SSA; matcher self-tested on a built-in example), && and || are reachable for every operand type pair (clause order of the dispatcher against the extracted tables), every True() body is the language's definition, consumers of truth call True(), and Run is True() of Execute's object with Execute's error. The compiler translates conditions and arms of if / while / ternary / switch exactly as the node's own fields and never writes into the tree; `!` is decided by the operand's type; the optimizer's rewrites are the enumerated ones. Both arms of a ternary are translated on every path. The optimizer removes a conditional jump only together with the constant that decides it.",
 		NotDecided:  "the values of comparisons themselves.",
 		Assumptions: commonAssumptions},
 	{ID: "C08", Title: "no crash of the host", Level: "other",
-		Rules:       []string{"R-RECOVER", "R-NONNIL", "R-RECURSION", "R-ERRPROP", "R-FRAMERESTORE", "R-MACHINENIL", "R-COMMAOK", "R-LOCKPAIR", "R-FOLDSAFE", "R-USEBEFORECHECK", "R-PREPAREFRESH", "R-INDEXRESULT", "R-PANICSITES", "R-OPTCLOSED", "R-POOLOWNER"},
-		Explanation: "Execute recovers and sets both results, Run does nothing that can panic afterwards, no nil object escapes, unbounded recursion reachable from the API is enumerated (Tarjan SCCs of the VTA call graph; each needs a depth guard), errors are propagated, and the machine is restored after a failed call so the evaluator remains usable. API methods touch the machine only where it exists, a failed Prepare leaves no stale machine behind, every Lock is released on every path, a position from strings.Index is used as a bound only where -1 was excluded, a constant division by zero is not folded. Outside the recover (Prepare with lexer, parser, compiler, machine construction and optimizer; Dump; Run's tail; the other API methods) every index, slice expression, unchecked type assertion and integer division is discharged: proven from the dominating comparisons (difference constraints with loop-counter induction and identification of repeated loads), or recognised as an index handed out by package sort or a position inside well-formed bytecode; there is no explicit panic there.",
+		Rules:       []string{"R-RECOVER", "R-NONNIL", "R-RECURSION", "R-ERRPROP", "R-FRAMERESTORE", "R-MACHINENIL", "R-COMMAOK", "R-LOCKPAIR", "R-FOLDSAFE", "R-USEBEFORECHECK", "R-PREPAREFRESH", "R-INDEXRESULT", "R-PANICSITES", "R-OPTCLOSED", "R-POOLOWNER", "R-NILBLOCK"},
+		Explanation: "Execute recovers and sets both results, Run does nothing that can panic afterwards, no nil object escapes, unbounded recursion reachable from the API is enumerated (Tarjan SCCs of the VTA call graph; each needs a depth guard), errors are propagated, and the machine is restored after a failed call so the evaluator remains usable. API methods touch the machine only where it exists, a failed Prepare leaves no stale machine behind, every Lock is released on every path, a position from strings.Index is used as a bound only where -1 was excluded, a constant division by zero is not folded. Outside the recover (Prepare with lexer, parser, compiler, machine construction and optimizer; Dump; Run's tail; the other API methods) every index, slice expression, unchecked type assertion and integer division is discharged: proven from the dominating comparisons (difference constraints with loop-counter induction and identification of repeated loads), or recognised as an index handed out by package sort or a position inside well-formed bytecode; there is no explicit panic there. A block pointer that may be nil (absent else, failed block parse) is dereferenced during parsing only after a comparison with nil.",
 		NotDecided:  "memory exhaustion; panics inside the recover region (they become errors, which the property allows); nil-pointer dereferences and nil-map writes outside the recover other than those R-NONNIL / R-MACHINENIL / R-COMMAOK cover; panics raised inside the standard library on arguments it rejects; host-supplied Object implementations.",
 		Assumptions: commonAssumptions},
 	{ID: "C09", Title: "deadline and cancellation", Level: "other",
-		Rules:       []string{"R-POLL", "R-CTXFLOW", "R-RANGE"},
-		Explanation: "The non-blocking poll of the VM's context dominates the opcode read and lies on every back edge of the dispatch loop (dominator analysis), its ready edge returns an error, inner loops of the interpreter are classified by their bound, functions execute through the same polled loop, and the context flows SetContext → Prepare → VM with no other writer. Every loop in every function the interpreter reaches is bounded by data that already exists (len, a reflect size, an operand); a trip count taken from a script value is reported. The range constructor — excluded from R-POLL's loop bounds — is bounded by its length computation (R-RANGE).",
+		Rules:       []string{"R-POLL", "R-CTXFLOW", "R-RANGE", "R-LOCKPAIR"},
+		Explanation: "The non-blocking poll of the VM's context dominates the opcode read and lies on every back edge of the dispatch loop (dominator analysis), its ready edge returns an error, inner loops of the interpreter are classified by their bound, functions execute through the same polled loop, and the context flows SetContext → Prepare → VM with no other writer. Every loop in every function the interpreter reaches is bounded by data that already exists (len, a reflect size, an operand); a trip count taken from a script value is reported. The range constructor — excluded from R-POLL's loop bounds — is bounded by its length computation (R-RANGE). Every lock taken by the API is released on every path, so a run that ended in a time-out does not leave the evaluator locked for good.",
 		NotDecided:  "the length of the delay: a single instruction (regexp match, sort, a huge range) may run long; Go scheduling.",
 		Assumptions: commonAssumptions},
 	{ID: "C06", Title: "functions and scopes", Level: "other",
@@ -85,8 +85,8 @@ var properties = []Property{
 		NotDecided:  "innermost-first lookup order and the redirect of assignments to an existing local (loop direction over run-time data); results of recursion; built-in-before-user lookup order.",
 		Assumptions: commonAssumptions},
 	{ID: "C07", Title: "no hidden state between runs", Level: "other",
-		Rules:       []string{"R-STATECENSUS", "R-RUNRESET", "R-FRAMERESTORE", "R-SCOPERESTORE", "R-NOMUT", "R-PREPAREFRESH", "R-SCOPEFRESH", "R-CTXFLOW", "R-POOLOWNER"},
-		Explanation: "Ownership/effect argument: a census of every struct field, map and package variable written by code reachable from the interpreter (VTA call graph) must fall into a classified group, and each class's obligation is checked: reset at interpreter entry, restored by defer on every exit, scope stack restored by depth, mutation only on private copies. Scopes are never recycled: each one pushed is a freshly made map.",
+		Rules:       []string{"R-STATECENSUS", "R-RUNRESET", "R-FRAMERESTORE", "R-SCOPERESTORE", "R-NOMUT", "R-PREPAREFRESH", "R-SCOPEFRESH", "R-CTXFLOW", "R-POOLOWNER", "R-CALLPROTO"},
+		Explanation: "Ownership/effect argument: a census of every struct field, map and package variable written by code reachable from the interpreter (VTA call graph) must fall into a classified group, and each class's obligation is checked: reset at interpreter entry, restored by defer on every exit, scope stack restored by depth, mutation only on private copies. Scopes are never recycled: each one pushed is a freshly made map. A call checks its arguments before it switches the machine over to the callee, so a refused call leaves nothing of the callee installed.",
 		NotDecided:  "cost growth other than through the scope stack and value stack; state inside host-supplied objects and functions.",
 		Assumptions: commonAssumptions},
 	{ID: "C15", Title: "numbers, strings and booleans are values", Level: "other",
@@ -95,9 +95,9 @@ var properties = []Property{
 		NotDecided:  "objects of host-defined types implementing the increment/iteration interfaces.",
 		Assumptions: commonAssumptions},
 	{ID: "C10", Title: "confinement", Level: "proof",
-		Rules:       []string{"R-EFFECTS", "R-IMPORTS", "R-DYNCALLS", "R-GLOBALS"},
+		Rules:       []string{"R-EFFECTS", "R-IMPORTS", "R-DYNCALLS", "R-GLOBALS", "R-HOSTMETHODS"},
 		Tech:        "closed-world reference and call enumeration against an allow-list (types.Info uses/selections, import scan of every file regardless of build constraints, resolution of every dynamic call site)",
-		Explanation: "Closed-world argument: every object from outside the module that library code references is on an allow-list of I/O-free packages plus exactly the effects the property grants (stdout through fmt.Print*, os.Getenv, the clock, the time-zone database); every file of the library — whatever its build constraints — imports only allow-listed packages and uses no cgo/linkname/assembly; every call through a function value resolves to module functions or to functions the host registered. One obligation per external object, per file, per dynamic call site and per function-table writer; all must be discharged. No package-level variable shares a table between evaluators: a guarded variable's value is reachable through the variable only, so a function one host registered cannot turn up in another evaluator.",
+		Explanation: "Closed-world argument: every object from outside the module that library code references is on an allow-list of I/O-free packages plus exactly the effects the property grants (stdout through fmt.Print*, os.Getenv, the clock, the time-zone database); every file of the library — whatever its build constraints — imports only allow-listed packages and uses no cgo/linkname/assembly; every call through a function value resolves to module functions or to functions the host registered. One obligation per external object, per file, per dynamic call site and per function-table writer; all must be discharged. No package-level variable shares a table between evaluators: a guarded variable's value is reachable through the variable only, so a function one host registered cannot turn up in another evaluator. No value of the host's object is formatted by package fmt under a verb that runs the value's own methods, and no method is called on it through an interface.",
 		NotDecided:  "nothing inside the stated trusted base; what host-registered functions do is the host's business, as the property says.",
 		Assumptions: commonAssumptions,
 		TrustedBase: []string{
@@ -111,38 +111,38 @@ var properties = []Property{
 		NotDecided:  "Execute, SetVariable, GetVariable called concurrently (not promised by the property); host functions and host objects.",
 		Assumptions: commonAssumptions},
 	{ID: "C12", Title: "precedence and grouping", Level: "other",
-		Rules:       []string{"R-PRECTABLE", "R-PRATT", "R-INFIXSET", "R-TERNGUARD", "R-DIVCONTEXT"},
-		Explanation: "The four facts that are the grouping semantics of a Pratt parser are read from the code: the order of the binding powers against the documented chain, strictness of the loop comparison, capture of the operator's binding power before the parser advances, agreement between the infix table and the precedence table; plus the nested-ternary guard. The token kinds after which `/` divides are exactly IDENT, INT, FLOAT, `)` and `]`.",
+		Rules:       []string{"R-PRECTABLE", "R-PRATT", "R-INFIXSET", "R-TERNGUARD", "R-DIVCONTEXT", "R-INFIXVIALOOP"},
+		Explanation: "The four facts that are the grouping semantics of a Pratt parser are read from the code: the order of the binding powers against the documented chain, strictness of the loop comparison, capture of the operator's binding power before the parser advances, agreement between the infix table and the precedence table; plus the nested-ternary guard. The token kinds after which `/` divides are exactly IDENT, INT, FLOAT, `)` and `]`. Operator parselets that take a left operand are entered through the table only, the nodes they build around it are built nowhere else, and they judge the operand by the tree, not by the previous token.",
 		NotDecided:  "the '.' rewrite of field access, postfix ++/-- being separate statements, what the compiler does with the tree.",
 		Assumptions: commonAssumptions},
 	{ID: "C14", Title: "literals and layout", Level: "other",
-		Rules:       []string{"R-LEXPROGRESS", "R-EOFSENTINEL", "R-ESCAPES", "R-CONSTDEDUP", "R-DIVCONTEXT", "R-COMMENTCTX", "R-NUMBASE", "R-TOKENPROGRESS", "R-LEXINPUT", "R-CUTSET", "R-BYTERUNE"},
-		Explanation: "Narrow claim. Tokenisation terminates for every input: the advance function moves forward unconditionally, every lexer loop advances on every cycle and has an exit taken at the end-of-input sentinel (loop conditions are evaluated with the sentinel substituted, predicates included), and the lexer does not recurse. End of input is decided by position, not by a character value. The string reader's escape table is the language's. Every return of NextToken has consumed a character (readers are entered under their own loop predicate); `//` starts a comment independent of the previous token; `/` divides exactly after an operand-ending token; integer and decimal text is read in base 10 with 64 bits; the constant pool keeps literals of different kinds apart. The lexer's buffer is the script text unmodified; Trim calls have constant cutsets. No text of a script is rebuilt byte by byte in the lexer, parser or compiler.",
+		Rules:       []string{"R-LEXPROGRESS", "R-EOFSENTINEL", "R-ESCAPES", "R-CONSTDEDUP", "R-DIVCONTEXT", "R-COMMENTCTX", "R-NUMBASE", "R-TOKENPROGRESS", "R-LEXINPUT", "R-CUTSET", "R-BYTERUNE", "R-POOLOWNER"},
+		Explanation: "Narrow claim. Tokenisation terminates for every input: the advance function moves forward unconditionally, every lexer loop advances on every cycle and has an exit taken at the end-of-input sentinel (loop conditions are evaluated with the sentinel substituted, predicates included), and the lexer does not recurse. End of input is decided by position, not by a character value. The string reader's escape table is the language's. Every return of NextToken has consumed a character (readers are entered under their own loop predicate); `//` starts a comment independent of the previous token; `/` divides exactly after an operand-ending token; integer and decimal text is read in base 10 with 64 bits; the constant pool keeps literals of different kinds apart. The lexer's buffer is the script text unmodified; Trim calls have constant cutsets. No text of a script is rebuilt byte by byte in the lexer, parser or compiler. A constant, once in the pool, is never rewritten: the literal a script spells is the value every use of it loads.",
 		NotDecided:  "what regexp literals denote character by character, and that layout and comments never change the token sequence in general: character-level value semantics.",
 		Assumptions: commonAssumptions},
 	{ID: "C16", Title: "containers", Level: "other",
 		Rules:       []string{"R-SCRIPTINDEX", "R-HASHKEY", "R-MAPORDER", "R-NOMUT", "R-ITERNEXT", "R-RANGE", "R-POPORDER", "R-MEMBERSHIP", "R-LENKIND", "R-PUREARGS", "R-CONSTDEDUP"},
-		Explanation: "Every slice index computed from a script value is proven within bounds from the dominating comparisons (difference constraints over canonical len terms); every HashKey() keeps the type and the value of the key; hash entries are iterated in a total order (sorted with a comparator that identifies the entry); iteration works on a private cursor so every entry is visited exactly once even in nested loops. Ranges are built start to end inclusive, literals pop their elements in reverse push order, membership compares type and printed form over every element, len counts runes/elements.",
+		Explanation: "Every slice index computed from a script value is proven within bounds from the dominating comparisons (difference constraints over canonical len terms); every HashKey() keeps the type and the value of the key; hash entries are iterated in a total order (sorted with a comparator that identifies the entry); iteration works on a private cursor so every entry is visited exactly once even in nested loops. Ranges are built start to end inclusive, literals pop their elements in reverse push order, membership compares type and printed form over every element, len counts runes/elements. The hash key of a value loses nothing of the value by construction (no float cut to an integer, no narrowing).",
 		NotDecided:  "element order from the stack, len, membership: values.",
 		Assumptions: commonAssumptions},
 	{ID: "C19", Title: "determinism", Level: "other",
-		Rules:       []string{"R-MAPORDER", "R-NONDETSRC", "R-PREPAREFRESH", "R-NOMUT", "R-POOLOWNER", "R-FRAMERESTORE", "R-SCOPERESTORE"},
-		Explanation: "Every iteration over a Go map in the library is classified as order-insensitive, collected-then-totally-sorted, or listed with a reason; there is no goroutine, multi-way select, pointer printing or randomness in the library; Prepare starts from empty compile outputs. No stack trace, goroutine or process identity reaches a result; a listed order-insensitive map loop must run to exhaustion.",
+		Rules:       []string{"R-MAPORDER", "R-NONDETSRC", "R-PREPAREFRESH", "R-NOMUT", "R-POOLOWNER", "R-FRAMERESTORE", "R-SCOPERESTORE", "R-ONPATHONLY"},
+		Explanation: "Every iteration over a Go map in the library is classified as order-insensitive, collected-then-totally-sorted, or listed with a reason; there is no goroutine, multi-way select, pointer printing or randomness in the library; Prepare starts from empty compile outputs. No stack trace, goroutine or process identity reaches a result; a listed order-insensitive map loop must run to exhaustion. The set that cuts off self-containing host containers holds the current path only, so which member of a map turns into null cannot depend on the order the map is walked in.",
 		NotDecided:  "nothing structural remains; what remains is values (and now()/time()/getenv(), which the property excludes).",
 		Assumptions: commonAssumptions},
 	{ID: "C17", Title: "built-in contracts", Level: "other",
-		Rules:       []string{"R-ARGGUARD", "R-PUREARGS", "R-NUMORDER", "R-LENKIND", "R-TIMEFIELDS", "R-USEBEFORECHECK", "R-JOINSHAPE", "R-NUMBASE", "R-MATCHONCE", "R-CUTSET", "R-COMMAOK", "R-TYPENAME", "R-FLOATINT"},
-		Explanation: "Narrow claim. Totality on wrong arity/type: every args[k] and every unchecked assertion of an argument is guarded by a dominating length / Type() test (abstract interpretation over length sets and type facts, with helper functions checked at their call sites). Inputs unchanged: no built-in stores into, sorts in place or mutates anything reachable from its arguments. min/max/between: no ordering by printed form is reachable when both arguments are numbers, the numeric helper computes left < right, min returns the smaller and max the larger argument, between is false exactly when v < lo or hi < v. join only concatenates element text and separator, places separators by position and does not post-process its result; int/float read base 10 / 64 bits; the time built-ins call the time method of the same name; len counts runes/elements. The time is decomposed in $TZ or UTC on every path; the matcher tries its pattern at least once; Trim calls have constant cutsets. type() names every type; no built-in converts a float to an integer without a range check.",
+		Rules:       []string{"R-ARGGUARD", "R-PUREARGS", "R-NUMORDER", "R-LENKIND", "R-TIMEFIELDS", "R-USEBEFORECHECK", "R-JOINSHAPE", "R-NUMBASE", "R-MATCHONCE", "R-CUTSET", "R-COMMAOK", "R-TYPENAME", "R-FLOATINT", "R-FMTCONST"},
+		Explanation: "Narrow claim. Totality on wrong arity/type: every args[k] and every unchecked assertion of an argument is guarded by a dominating length / Type() test (abstract interpretation over length sets and type facts, with helper functions checked at their call sites). Inputs unchanged: no built-in stores into, sorts in place or mutates anything reachable from its arguments. min/max/between: no ordering by printed form is reachable when both arguments are numbers, the numeric helper computes left < right, min returns the smaller and max the larger argument, between is false exactly when v < lo or hi < v. join only concatenates element text and separator, places separators by position and does not post-process its result; int/float read base 10 / 64 bits; the time built-ins call the time method of the same name; len counts runes/elements. The time is decomposed in $TZ or UTC on every path; the matcher tries its pattern at least once; Trim calls have constant cutsets. type() names every type; no built-in converts a float to an integer without a range check. No built-in uses a value as a format string.",
 		NotDecided:  "every value-level contract: split and the join/split round trip as a whole, sort's permutation property, conversions, string helpers.",
 		Assumptions: commonAssumptions},
 	{ID: "C20", Title: "front ends", Level: "other",
 		Rules:       []string{"R-RUNEXEC", "R-ENVSHARE", "R-VOIDPUSH", "R-FLAGONLY", "R-NOINJECT", "R-CTXFLOW", "R-DRIVER", "R-POPORDER", "R-SCOPERESTORE", "R-LOCKSET", "R-FMTCONST", "R-SWITCHONCE", "R-CALLPROTO", "R-NAMEAGREE", "R-RECURSION", "R-LOOKUPORDER"},
-		Explanation: "Narrow claim. Run is True() of Execute's object with Execute's error; the API methods pass their own arguments to the one environment the machine was built on; call results are pushed exactly when not void; the NoOptimize flag guards only the optimizer switch; the library injects no variables; the context flows SetContext → Prepare → VM; the command-line driver sets the context before Prepare, plumbs -no-optimizer and the decoded JSON document, reports type/value/truth of Execute's result and recovers panics. Only Prepare and Run take the evaluator's mutex (a host function may call the other methods during Run); printf-style calls have constant formats, so a result's text is never re-interpreted; call arguments are popped in reverse push order. Known finding: the subject of a switch is translated once per arm, so a host function used as subject is called several times. A host function wins over a script function of the same name. What the driver does with a result (its JSON form) is bounded recursion too.",
+		Explanation: "Narrow claim. Run is True() of Execute's object with Execute's error; the API methods pass their own arguments to the one environment the machine was built on; call results are pushed exactly when not void; the NoOptimize flag guards only the optimizer switch; the library injects no variables; the context flows SetContext → Prepare → VM; the command-line driver sets the context before Prepare, plumbs -no-optimizer and the decoded JSON document, reports type/value/truth of Execute's result and recovers panics. Only Prepare and Run take the evaluator's mutex (a host function may call the other methods during Run); printf-style calls have constant formats, so a result's text is never re-interpreted; call arguments are popped in reverse push order. Known finding: the subject of a switch is translated once per arm, so a host function used as subject is called several times. A host function wins over a script function of the same name. What the driver does with a result (its JSON form) is bounded recursion too. The driver never assigns to a field a flag is bound to: every script of an invocation runs under the values given on the command line.",
 		NotDecided:  "argument order of host calls (index arithmetic over run-time counts), what the driver prints character by character, the lex/parse sub-commands' output.",
 		Assumptions: commonAssumptions},
 	{ID: "C18", Title: "well-formed code", Level: "other",
-		Rules:       []string{"R-EMITLEN", "R-HANDLERS", "R-PATCHALL", "R-JOINPH", "R-JUMPSET", "R-OPBOUNDARY", "R-NARROW", "R-CONSTDEDUP", "R-FOLDRESET", "R-BODYSTATE", "R-OPTCLOSED", "R-CONSTREF", "R-COUNTED", "R-EMITSET", "R-VALUEPOS", "R-LOOPSTACK", "R-POOLOWNER", "R-BODYRETURN", "R-PREPAREFRESH"},
-		Explanation: "Emitter-side structural checks: operand presence agrees with code.Length at every emit site and handler, every opcode is handled, every placeholder is patched, every forward label is followed by an instruction, jump sets agree, opcodes are only read at instruction pointers, 16-bit operands are range-checked. Compiler state reset for a function body is restored after it (so the implicit return is decided on the body just compiled), the optimizer removes exactly NOPs, and its constant window is reset, not trimmed. Every instruction whose handler indexes the constant table is emitted with the index the constant pool returned. Counted instructions take their count from the field whose loop pushes exactly that many operands; each construct emits only the opcodes of its scheme. Known findings: value-less constructs (assignment, compound assignment, ++/--) are accepted as operands and underflow the stack at run time; a foreach body can bury its iterator. Prepare starts from empty compile outputs, so no function body compiled against an earlier constant pool survives.",
+		Rules:       []string{"R-EMITLEN", "R-HANDLERS", "R-PATCHALL", "R-JOINPH", "R-JUMPSET", "R-OPBOUNDARY", "R-NARROW", "R-CONSTDEDUP", "R-FOLDRESET", "R-BODYSTATE", "R-OPTCLOSED", "R-CONSTREF", "R-COUNTED", "R-EMITSET", "R-VALUEPOS", "R-LOOPSTACK", "R-POOLOWNER", "R-BODYRETURN", "R-PREPAREFRESH", "R-NORELOCATE", "R-ERRPROP"},
+		Explanation: "Emitter-side structural checks: operand presence agrees with code.Length at every emit site and handler, every opcode is handled, every placeholder is patched, every forward label is followed by an instruction, jump sets agree, opcodes are only read at instruction pointers, 16-bit operands are range-checked. Compiler state reset for a function body is restored after it (so the implicit return is decided on the body just compiled), the optimizer removes exactly NOPs, and its constant window is reset, not trimmed. Every instruction whose handler indexes the constant table is emitted with the index the constant pool returned. Counted instructions take their count from the field whose loop pushes exactly that many operands; each construct emits only the opcodes of its scheme. Known findings: value-less constructs (assignment, compound assignment, ++/--) are accepted as operands and underflow the stack at run time; a foreach body can bury its iterator. Prepare starts from empty compile outputs, so no function body compiled against an earlier constant pool survives. The instruction buffer grows through the emitter only (instructions are never copied to another offset than the one their jumps were computed for), and no error of a child translation is dropped.",
 		NotDecided:  "stack balance on every path and jump targets of a given emitted program (properties of Prepare's output); R-VALUEPOS and R-LOOPSTACK decide two necessary conditions of stack discipline only.",
 		Assumptions: commonAssumptions},
 }
